@@ -239,6 +239,57 @@ theorem sequentialize_complete (m : SModel) (hu : (m.map (·.lhs)).Nodup)
   · rw [if_pos (List.isPerm_iff.2 (strict_order_perm_of_valid_order m hu σ hσ hv))]
     exact ⟨_, rfl⟩
 
+/-! ### histories: several calls on one and the same Sequential object -/
+
+/-- every call (`reorder_equations(p)` accepted or rejected, `sequentialize()` successful or not,
+`copy()`) leaves a permutation of the equations -/
+theorem applyOp_perm (m : SModel) (op : SOp) : (applyOp m op).Perm m := by
+  have hre : ∀ order : List Nat, order.Perm (List.range m.length) →
+      (order.filterMap fun i => m[i]?).Perm m := fun order h => by
+    have := h.filterMap (fun i => m[i]?)
+    rwa [filterMap_getElem?_range'] at this
+  cases op with
+  | reorder p =>
+    simp only [applyOp, reorderEquations]
+    split
+    · rename_i h; exact hre p (List.isPerm_iff.1 h)
+    · exact List.Perm.refl _
+  | sequentialize =>
+    simp only [applyOp]
+    rw [sequentialize_eq]
+    split
+    · exact List.Perm.refl _
+    · split
+      · rename_i h; exact hre _ (List.isPerm_iff.1 h)
+      · exact List.Perm.refl _
+  | copy => exact List.Perm.refl _
+
+/-- ... hence so does every history of calls -/
+theorem runOps_perm (m : SModel) (ops : List SOp) : (runOps m ops).Perm m := by
+  induction ops generalizing m with
+  | nil => exact List.Perm.refl _
+  | cons op rest ih =>
+    simp only [runOps, List.foldl_cons]
+    exact (ih (applyOp m op)).trans (applyOp_perm m op)
+
+/-- Soundness after any history: whatever re-orderings, earlier `sequentialize()` calls and copies
+the object went through, a `sequentialize()` that returns does so with a permutation under which the
+state is in a valid order.  (The model recomputes the incidence matrix from the current order after
+every call; that the code does the same -- `collect_names` + `finalize_explanatories` -- is what the
+`sequential-histories` correspondence stream and its order oracle check.) -/
+theorem sequentialize_sound_after_any_history (m0 : SModel) (hu : (m0.map (·.lhs)).Nodup)
+    (ops : List SOp) (π : List Nat) (m' : SModel)
+    (h : sequentialize (runOps m0 ops) = (.ok π, m')) :
+    π.Perm (List.range m0.length) ∧ m' = π.filterMap (fun i => (runOps m0 ops)[i]?) ∧
+      SeqValid m' ∧ m'.Perm m0 := by
+  have hp := runOps_perm m0 ops
+  have hu' : ((runOps m0 ops).map (·.lhs)).Nodup := ((hp.map _).nodup_iff).2 hu
+  obtain ⟨h1, h2, h3⟩ := sequentialize_sound _ hu' π m' h
+  refine ⟨by rw [← hp.length_eq]; exact h1, h2, h3, ?_⟩
+  have : m' = applyOp (runOps m0 ops) .sequentialize := by simp [applyOp, h]
+  rw [this]
+  exact (applyOp_perm _ _).trans hp
+
 /-! ### non-vacuity -/
 
 example : HasPerfectMatching (incOf exampleMatrix) (List.range 5) (List.range 5) := by decide
